@@ -27,10 +27,42 @@ func CopyMessage(out, in interface{}) error {
 		return fmt.Errorf("destination for copy is not a proto.Message: %T; use a custom cloner", in)
 	}
 
+	if dmIn, ok := pmIn.(*dynamic.Message); ok {
+		return copyDynamic(pmOut, dmIn)
+	}
+
 	pmOut.Reset()
 	// This will check that types are compatible and return an error if not.
 	// Unlike proto.Merge, this allows one or the other to be a dynamic message.
 	return dynamic.TryMerge(pmOut, pmIn)
+}
+
+// copyDynamic copies a dynamic message into out by way of its wire form. Merging
+// from a dynamic message (which is also what proto.Clone does with one) keeps
+// the source's byte slices and other values by reference, so the copy and the
+// source would see each other's later modifications; decoding the encoded
+// message yields a copy that shares nothing with the source.
+func copyDynamic(out proto.Message, in *dynamic.Message) error {
+	// same rule as dynamic.TryMerge: both must be the same message type
+	inName := in.GetMessageDescriptor().GetFullyQualifiedName()
+	var outName string
+	if dmOut, ok := out.(*dynamic.Message); ok {
+		outName = dmOut.GetMessageDescriptor().GetFullyQualifiedName()
+	} else {
+		outName = proto.MessageName(out)
+	}
+	if inName != outName {
+		return fmt.Errorf("given message has wrong type: %q; expecting %q", outName, inName)
+	}
+	b, err := in.Marshal()
+	if err != nil {
+		return err
+	}
+	out.Reset()
+	if dmOut, ok := out.(*dynamic.Message); ok {
+		return dmOut.Unmarshal(b)
+	}
+	return proto.Unmarshal(b, out)
 }
 
 // CloneMessage returns a copy of the given value.
@@ -38,6 +70,17 @@ func CloneMessage(m interface{}) (interface{}, error) {
 	pm, ok := m.(proto.Message)
 	if !ok {
 		return nil, fmt.Errorf("value to clone is not a proto.Message: %T; use a custom cloner", m)
+	}
+
+	if dm, ok := pm.(*dynamic.Message); ok {
+		// proto.Clone gives the clone the source's descriptor, message factory
+		// and extension registry, but shares the source's values (see
+		// copyDynamic): fill it from the wire form instead
+		clone := proto.Clone(dm).(*dynamic.Message)
+		if err := copyDynamic(clone, dm); err != nil {
+			return nil, err
+		}
+		return clone, nil
 	}
 
 	// this does a proper deep copy
